@@ -542,6 +542,38 @@ def rule_x11(repo):
                 'while the level counter drops below them' % (src(d.ast, 30), lvl), '%s:%d' % (SAT, d.lineno))
     return res
 
+def rule_x12(repo):
+    """The encoding gives every sub-formula a variable, x = <sub-formula> - as a clause set when the sub-formula is built
+    with a connective, as a mere assumption when it is an atom (an atom can be true or false: nothing to say).  The
+    constants `true` and `false` are not built with a connective and are not atoms either: they have a fixed value, and
+    the CNF is equisatisfiable with the formula only if that value is stated - the unit clause x for x = true, ~x for
+    x = false.  So where `encode` turns the equations into conjuncts there is a case for each of the two constants that
+    ends, like the case of the connectives, in a conjunct.  (Without it the CNF of `false` is the satisfiable {x1}.)"""
+    res = RuleResult('C15.X12', 'the definitions x = true and x = false of the Tseitin encoding become the unit clauses x and ~x', floor=2)
+    enc = repo.func(TSEITIN, 'encode')
+    cfg = cfg_of(enc.node)
+    conj = [n for n in cfg.nodes if n.kind == 'stmt' and isinstance(n.ast, ast.Assign) and any(
+        isinstance(c, ast.Call) and (call_name(c) or '').endswith('apply_theorem') and c.args and isinstance(c.args[0], ast.Constant) and c.args[0].value == 'conjI'
+        for c in ast.walk(n.ast.value))]
+    need(conj, 'encode: no conjunct is added (apply_theorem(\'conjI\', ..))')
+    for const in ('true', 'false'):
+        def is_const(e, pol, const=const):
+            cp = compare_parts(e)
+            return bool(cp) and pol and cp[0] is ast.Eq and (is_name(cp[2], const) or is_name(cp[1], const))
+        edges = cfg.establishing_edges(is_const)
+        ok = False
+        byid = {x.id: x for x in cfg.nodes}
+        for (nid, lab) in edges:
+            starts = [b for b, l in byid[nid].succ if l == lab]
+            r = cfg.reach_from(starts, skip_nodes=[n for n in cfg.nodes if n.kind == 'iter'])
+            if any(c.id in r for c in conj):
+                ok = True
+        res.add('%s :: encode :: constant(%s)' % (TSEITIN, const), ok,
+                'a definition x = %s adds a conjunct' % const if ok else
+                'no case for a definition x = %s: the constant is encoded like an atom that may take either value, and the CNF of an unsatisfiable '
+                'formula (false, a & false, ~true) is satisfiable' % const, enc.loc)
+    return res
+
 
 def rules(repo):
-    return [rule_x1(repo), rule_x2(repo), rule_x3(repo), rule_x4(repo), rule_x5(repo), rule_x6(repo), rule_x7(repo), rule_x8(repo), rule_x9(repo), rule_x10(repo), rule_x11(repo)]
+    return [rule_x1(repo), rule_x2(repo), rule_x3(repo), rule_x4(repo), rule_x5(repo), rule_x6(repo), rule_x7(repo), rule_x8(repo), rule_x9(repo), rule_x10(repo), rule_x11(repo), rule_x12(repo)]
